@@ -12,6 +12,36 @@ def nontrivial_read(rq, resp):
     return ' # EV - ' not in resp or not resp.startswith('char:0')
 
 PROPS = {
+    'C06': {
+        'lean': ['Purr.Props.C06'],
+        'suites': [
+            {'name': 'read', 'nontrivial': nontrivial_read},
+            {'name': 'atom', 'nontrivial': nontrivial_read},
+            {'name': 'graph', 'nontrivial': lambda rq, resp: True},
+            {'name': 'events', 'nontrivial': lambda rq, resp: True},
+            {'name': 'val', 'requests': r'VAL '},
+            {'name': 'depth'},
+        ],
+        'rule': 'every suite of the harness with every response field compared (a panic of the real code where the model has none is a '
+                'disagreement): bounded-exhaustive and random strings incl. multi-byte and control characters, all small adjacency lists '
+                'incl. garbage (dangling, self, duplicate, asymmetric bonds), random well-formed and mutated graphs up to 300 atoms, ring-rich '
+                'graphs up to 120 open closures, conformant and malformed event histories, hydrogen queries at sums beyond 255, size families '
+                'up to 5000 (thorough 30000) atoms. distinct = distinct request lines',
+        'assumptions': ASSUME_COMMON + ['aborts (stack exhaustion) cannot be caught in-process: a dying implementation process is reported with the request it died on'],
+    },
+    'C08': {
+        'lean': ['Purr.Props.C08'],
+        'suites': [
+            {'name': 'read', 'fields': ['V', 'EV', 'P', 'W'], 'nontrivial': nontrivial_read},
+            {'name': 'graph', 'fields': ['V', 'EV', 'P', 'W'], 'nontrivial': lambda rq, resp: ' # EV - ' not in resp},
+            {'name': 'events', 'fields': ['W', 'P'], 'nontrivial': lambda rq, resp: True},
+        ],
+        'rule': 'read: corpus, all strings <= 4 over a 14-letter SMILES alphabet, <= 6 over 6 letters, <= 5 over bracket letters, grammar-directed '
+                'random strings and their mutations (valid and invalid: the partial stream before the error is compared); graph: all small '
+                'graphs incl. garbage, random well-formed / mutated graphs; events: all histories <= 4 events over 12 event shapes, random '
+                'histories up to 200 events and a malformed stream. non-trivial = at least one event emitted',
+        'assumptions': ASSUME_COMMON,
+    },
     'C07': {
         'lean': ['Purr.Props.C07'],
         'suites': [
